@@ -9,6 +9,7 @@ import (
 	"sync"
 	"sync/atomic"
 	"testing"
+	"time"
 
 	"github.com/brewlin/net-protocol/pkg/seqnum"
 	tcpip "github.com/brewlin/net-protocol/protocol"
@@ -70,13 +71,45 @@ func stable() {
 	}
 }
 
+// Every guarded call is on record while it runs: a parser that never returns (a loop that
+// does not advance) would otherwise hang the check. These calls take nanoseconds; one that
+// is still running after a minute is reported with its input.
+type inflightCall struct {
+	key    string
+	replay interface{}
+	since  time.Time
+}
+
+var (
+	inflight  sync.Map
+	guardSeq  int64
+	finishing int32
+)
+
 func guard(key string, replay interface{}, f func()) {
+	id := atomic.AddInt64(&guardSeq, 1)
+	inflight.Store(id, inflightCall{key, replay, time.Now()})
+	defer inflight.Delete(id)
 	defer func() {
 		if r := recover(); r != nil {
 			bad(key+"/panic", fmt.Sprintf("panic: %v", r), replay)
 		}
 	}()
 	f()
+}
+
+func runawayMonitor() {
+	for {
+		time.Sleep(5 * time.Second)
+		inflight.Range(func(k, v interface{}) bool {
+			c := v.(inflightCall)
+			if time.Since(c.since) > time.Minute && atomic.CompareAndSwapInt32(&finishing, 0, 1) {
+				bad(c.key+"/does-not-return", "a call on this input has been running for more than a minute (it takes nanoseconds): the code under test does not terminate on it", c.replay)
+				os.Exit(run.Finish("(aborted: a call under test did not return)", nil))
+			}
+			return true
+		})
+	}
 }
 
 func par(n int, f func(i int)) {
@@ -1054,6 +1087,7 @@ func dns() {
 
 func TestC15(t *testing.T) {
 	run = fw.Start("C15", "exploration")
+	go runawayMonitor()
 	checksums()
 	codecs()
 	tcpCodec()
